@@ -130,6 +130,8 @@ func c13ListsFromWire(c *Ctx) {
 			case *ssa.Call:
 				if bi, isB := x.Call.Value.(*ssa.Builtin); isB && bi.Name() == "append" {
 					okV = true
+				} else {
+					okV = c13HelperList(x, um)
 				}
 			case *ssa.Slice:
 				if a, isA := x.X.(*ssa.Alloc); isA {
@@ -139,6 +141,10 @@ func c13ListsFromWire(c *Ctx) {
 				}
 			case *ssa.Phi:
 				okV = true // merges of the above forms are checked at their own stores
+			case *ssa.Extract:
+				if hc, isC := x.Tuple.(*ssa.Call); isC && x.Index == 0 {
+					okV = c13HelperList(hc, um)
+				}
 			}
 			if !okV && why == "" {
 				why = RenderN(st.Val, 3)
@@ -147,4 +153,72 @@ func c13ListsFromWire(c *Ctx) {
 		}
 	}
 	c.Check(n >= 4, "ja3-lists-from-wire", "list stores in unmarshal found", p.Pos(um.Pos()), fmt.Sprint(n), "fewer stores to the JA3 list fields in unmarshal than known")
+}
+
+// c13HelperList: the call decodes a list from a slice of the message in a helper: every list the helper returns is nil or
+// made in that call (its elements are checked by the fill-site rule).
+func c13HelperList(hc *ssa.Call, um *ssa.Function) bool {
+	hf := hc.Call.StaticCallee()
+	if hf == nil || !InRepo(hf) || hf.Blocks == nil {
+		return false
+	}
+	fromMsg := false
+	var derives func(v ssa.Value, d int, seen map[ssa.Value]bool) bool
+	derives = func(v ssa.Value, d int, seen map[ssa.Value]bool) bool {
+		if v == ssa.Value(um.Params[1]) {
+			return true
+		}
+		if d > 12 || seen[v] {
+			return false
+		}
+		seen[v] = true
+		switch x := v.(type) {
+		case *ssa.Slice:
+			return derives(x.X, d+1, seen)
+		case *ssa.Phi:
+			for _, e := range x.Edges {
+				if !derives(e, d+1, seen) && !seen[e] {
+					return false
+				}
+			}
+			return true
+		}
+		return false
+	}
+	for _, a := range hc.Call.Args {
+		if derives(a, 0, map[ssa.Value]bool{}) {
+			fromMsg = true
+		}
+	}
+	if !fromMsg || len(Returns(hf)) == 0 {
+		return false
+	}
+	for _, r := range Returns(hf) {
+		v0 := Deref(RetVals(r)[0])
+		if k, isK := v0.(*ssa.Const); isK && k.IsNil() {
+			continue
+		}
+		if _, isMk := v0.(*ssa.MakeSlice); isMk {
+			continue
+		}
+		// a named result: every value assigned to it is nil or made here
+		okNamed := false
+		if ld, isLd := isLoad(v0); isLd {
+			if a, isA := ld.X.(*ssa.Alloc); isA {
+				okNamed = true
+				for _, sv := range StoredValues(a) {
+					if k, isK := sv.(*ssa.Const); isK && k.IsNil() {
+						continue
+					}
+					if _, isMk := sv.(*ssa.MakeSlice); !isMk {
+						okNamed = false
+					}
+				}
+			}
+		}
+		if !okNamed {
+			return false
+		}
+	}
+	return true
 }
